@@ -15,6 +15,7 @@ FAMILIES = {
     "params": ("MC_Params", None),
     "prune": ("MC_Prune", None),
     "debug": ("MC_Debug", None),
+    "literals": ("MC_Literals", None),
 }
 
 
@@ -52,6 +53,8 @@ def issue_property(case, issue, all_issues):
     """Which property does an observed difference contradict?"""
     at, what = issue.get("at"), issue.get("what")
     if at == "new":
+        if case.get("tag") == "literal":
+            return "C11"
         if what == "panic":
             return "C06"
         return "C04"
